@@ -105,6 +105,10 @@ pub struct World {
     /// correct RRSIG made by `evil.tld.` - a securely delegated sibling zone
     /// that is no ancestor of those names - with itself as signer name.
     pub foreign_sigs: BTreeMap<(String, Rtype), SRec>,
+    /// An NSEC3 record of `evil.tld.` - a securely delegated zone whose owner
+    /// may sign what it likes - whose owner label is not a Base32hex string,
+    /// with its (cryptographically correct) RRSIG.
+    pub hostile_nsec3: Vec<SRec>,
 }
 
 fn make_key(owner: &str, _seed_byte: u8) -> (SigningKey<Bytes, KeyPair>, Dnskey<Vec<u8>>) {
@@ -360,6 +364,13 @@ host.ed.tld. 300 IN A 203.0.113.73\n";
             }
         }
     }
+    let hostile_nsec3: Vec<SRec> = {
+        let recs = parse_records("evil.tld.", "zz--not-base32hex!.evil.tld. 300 IN NSEC3 1 0 0 - 0123456789abcdefghijklmnopqrstuv A\n");
+        let rrset = Rrset::new_from_owned(&recs).expect("nsec3 rrset");
+        let sig = sign_rrset(&evil_key.0, &rrset, Timestamp::from(inception), Timestamp::from(expiration)).expect("sign hostile nsec3");
+        let sig_rec: SRec = Record::new(sig.owner().clone(), sig.class(), sig.ttl(), ZoneRecordData::Rrsig(sig.data().clone()));
+        recs.into_iter().chain(std::iter::once(sig_rec)).collect()
+    };
     let b64 = {
         let dk = &root_key.1;
         let rec: Record<SName, Dnskey<Vec<u8>>> = Record::new(sname("."), Class::IN, Ttl::from_secs(3600), dk.clone());
@@ -384,6 +395,7 @@ host.ed.tld. 300 IN A 203.0.113.73\n";
         expiration,
         ds_expiration,
         foreign_sigs,
+        hostile_nsec3,
     }
 }
 
@@ -998,6 +1010,29 @@ impl World {
         let tail = self.resolve(other, qtype);
         r.answer.extend(tail.answer);
         r.authority = tail.authority;
+        Some(r)
+    }
+
+    /// NXDOMAIN for a name in `evil.tld.` "proven" by that zone's signed
+    /// NSEC3 record with the owner label that is no hash (next to the genuine
+    /// SOA): nothing to be fooled by, but it has to be survived.
+    pub fn forged_hostile_nsec3(&self, qname: &str, qtype: Rtype) -> Option<Resp> {
+        if !qname.ends_with(".evil.tld.") {
+            return None;
+        }
+        let truth = self.resolve(qname, qtype);
+        let mut r = Resp { rcode_nx: true, ..Default::default() };
+        for rec in &truth.authority {
+            let keep = match rec.data() {
+                ZoneRecordData::Soa(_) => true,
+                ZoneRecordData::Rrsig(s) => s.type_covered() == Rtype::SOA,
+                _ => false,
+            };
+            if keep {
+                r.authority.push(rec.clone());
+            }
+        }
+        r.authority.extend(self.hostile_nsec3.iter().cloned());
         Some(r)
     }
 
